@@ -75,7 +75,14 @@ pub struct Verdict {
     pub kind: String,
     pub replay: Value,
     pub blocked_for_s: u64,
+    /// false: the step sleeps without consuming CPU time (blocked); true: the step has consumed `blocked_for_s`
+    /// seconds of CPU time without returning (it spins: a bounded loop of the router no longer terminates)
+    pub spinning: bool,
 }
+
+/// CPU time one router step may consume before it counts as a livelock, in clock ticks (100 per second): normal
+/// steps take micro- to milliseconds, the largest emulated turns some tens of milliseconds
+const SPIN_TICKS: u64 = 30 * 100;
 
 /// Starts the supervisor thread. `on_halt` is called (once) with what was being stepped; it must not return
 /// into the blocked worker's results (the worker cannot be recovered): it reports and ends the process.
@@ -85,14 +92,25 @@ pub fn start(block_secs: u64, on_halt: impl Fn(Verdict) + Send + 'static) {
         .spawn(move || {
             // per beat: (steps, cpu) last seen changing, and since when nothing has changed
             let mut seen: Vec<(u64, u64, Instant)> = vec![];
+            // per beat: (step counter, CPU time when that step was first seen)
+            let mut step_cpu: Vec<(u64, u64)> = vec![];
             loop {
                 std::thread::sleep(Duration::from_millis(500));
                 let beats: Vec<Arc<Beat>> = registry().lock().unwrap().clone();
                 seen.resize(beats.len(), (u64::MAX, u64::MAX, Instant::now()));
+                step_cpu.resize(beats.len(), (u64::MAX, 0));
                 for (i, b) in beats.iter().enumerate() {
                     let steps = b.steps.load(Ordering::SeqCst);
                     let in_step = b.in_step.load(Ordering::SeqCst);
                     let Some((state, cpu)) = sched(&b.task) else { continue };
+                    // livelock: one and the same step keeps consuming CPU time
+                    if !in_step || step_cpu[i].0 != steps {
+                        step_cpu[i] = (steps, cpu);
+                    } else if cpu.saturating_sub(step_cpu[i].1) >= SPIN_TICKS {
+                        let (kind, replay) = b.what.lock().map(|w| w.clone()).unwrap_or_default();
+                        on_halt(Verdict { kind, replay, blocked_for_s: cpu.saturating_sub(step_cpu[i].1) / 100, spinning: true });
+                        return;
+                    }
                     let blocked_now = in_step && state == 'S';
                     if !blocked_now || steps != seen[i].0 || cpu != seen[i].1 {
                         seen[i] = (steps, cpu, Instant::now());
@@ -101,7 +119,7 @@ pub fn start(block_secs: u64, on_halt: impl Fn(Verdict) + Send + 'static) {
                     let secs = seen[i].2.elapsed().as_secs();
                     if secs >= block_secs {
                         let (kind, replay) = b.what.lock().map(|w| w.clone()).unwrap_or_default();
-                        on_halt(Verdict { kind, replay, blocked_for_s: secs });
+                        on_halt(Verdict { kind, replay, blocked_for_s: secs, spinning: false });
                         return;
                     }
                 }
@@ -125,9 +143,9 @@ pub fn evidence(property: &str, tier: &str, seed: u64, level: &str, wall_s: f64,
             "evaluations": histories,
             "distinct_nontrivial": histories,
             "router_steps": steps,
-            "explanation": "run ended by the blocked-step supervisor: one history blocked the router for good",
+            "explanation": "run ended by the step supervisor: one history made a router step block or spin for good",
             "rule": "histories started by all workers until the supervisor ended the run (each has its own case seed, symbol sequence or scenario name; every one drives the router through at least a connect); the per-oracle counts of the workers are out of reach because the blocked worker cannot be joined",
-            "samples": [ {"blocked_router_step": v.kind, "blocked_for_s": v.blocked_for_s, "history": v.replay} ],
+            "samples": [ {"router_step": v.kind, "state": if v.spinning { "spinning (CPU seconds consumed)" } else { "blocked (seconds asleep without CPU time)" }, "seconds": v.blocked_for_s, "history": v.replay} ],
         },
         "assumptions": ["a harness-driven router step does no I/O: a thread sleeping inside it without consuming CPU time is blocked"],
         "wall_s": wall_s,
